@@ -317,6 +317,8 @@ def ob_release(k, released_before, cap=None, light=False, real_kernel=False, pen
                 (e.post['prev_hub_balance'] == W.hub_balance - paid, 'recorded balance = balance after the payout', 'release:prev'),
                 (e.post['last_processed'] == W.last_processed + k, 'last processed batch advances over the released ones', 'release:last'),
                 (len(e.bank) == 1 and len(e.msgs) == 1, 'exactly one bank transfer to the claimant', 'release:msg'),
+                (z3.And(e.post['Bb'] == W.Bb, e.post['Bs'] == W.Bs, e.batch['Qb'] == W.Qb, e.batch['Qs'] == W.Qs, e.mint_b == 0, e.mint_s == 0, e.burn_b == 0, e.burn_s == 0),
+                 'a withdrawal touches neither the pools, the pending requests nor the token supplies (no rate can move)', 'release:pools'),
             ]
             # loss spread per token type: every batch's new rate is computed from its own token side's total and that side's
             # share of the arrived coins (call-site arguments of the rate kernel; the kernel itself: kernel_new_withdraw_rate)
@@ -357,7 +359,7 @@ def ob_release(k, released_before, cap=None, light=False, real_kernel=False, pen
                 cl.append((ime.val.fields[8] == False, 'the batch that has not matured stays unreleased', 'release:immature'))   # noqa
             cl.append((len(left) == 0, 'paid claims are removed (never paid twice)', 'release:removed'))
             if light:
-                cl = [c for c in cl if c[2] in ('release:share', 'release:released', 'release:prev', 'release:last', 'release:msg', 'release:removed', 'release:keeps_pending', 'release:immature', 'release:per_token_s', 'release:per_token_b', 'release:per_token_calls')]
+                cl = [c for c in cl if c[2] in ('release:share', 'release:released', 'release:prev', 'release:last', 'release:msg', 'release:removed', 'release:keeps_pending', 'release:immature', 'release:per_token_s', 'release:per_token_b', 'release:per_token_calls', 'release:pools')]
             if only is not None:
                 cl = [c for c in cl if c[2] in only]
             ctx.require_all(st, cl, W.mv)
@@ -689,6 +691,11 @@ def ORACLE(v, scn, out):
                     bad.append('matured batch %d not released' % i)
         elif group and int(post['items'][b'\x00\x05state']['last_processed_batch']) != group[-1]:
             bad.append('last_processed_batch %s, last matured batch %d' % (post['items'][b'\x00\x05state']['last_processed_batch'], group[-1]))
+    elif what == 'pools':
+        s0_, s1_ = pre['items'][b'\x00\x05state'], post['items'][b'\x00\x05state']
+        if (s0_['total_bond_bsei_amount'], s0_['total_bond_stsei_amount']) != (s1_['total_bond_bsei_amount'], s1_['total_bond_stsei_amount']) or \
+                pre['items'][b'\x00\x0dcurrent_batch'] != post['items'][b'\x00\x0dcurrent_batch'] or any('wasm' in sm['msg'] for sm in res['ok']['messages']):
+            bad.append('pools / pending requests / token supplies touched by a withdrawal')
     elif what == 'msg':
         banks = [sm for sm in res['ok']['messages'] if 'bank' in sm['msg']]
         if len(res['ok']['messages']) != 1 or len(banks) != 1 or banks[0]['msg']['bank']['send']['to_address'] != user:
